@@ -34,6 +34,7 @@ EXPLANATION = (
     "entries, labels increase by one per round and assigned entries are removed. Not decided: connectivity semantics, "
     "interpolation, solid angles.")
 EXPLANATION += (' R-C19-4: an attribute that several methods set to different values (the ansatz derivative of the element type) is per-type state: every method that calls a reader of it calls the matching writer on every path before (CFG dominance).')
+EXPLANATION += (' R-C19-5: Meshmapper.process addresses source and target points with the same complete coordinate key list of the mesh; a list cut by the data-dependent `dimensions` property is a violation.')
 ASSUMPTIONS = [
     "pandas .loc/.isin/get_indexer are label based, numpy subscripts and .iloc are positional",
     "np.linalg.inv returns the inverse (non-degenerate element)",
@@ -235,6 +236,43 @@ def run(ctx):
     ctx.attempt(_r2_jacobian)
     ctx.attempt(_r3_hotspot)
     ctx.attempt(_r4_shape_state)
+    ctx.attempt(_r5_mapping_coords)
+
+
+def _r5_mapping_coords(ctx):
+    """Mesh mapping interpolates in the coordinate space of the meshes: source points and target points are addressed with the
+    same, complete list of coordinate keys of the mesh (self._coord_keys).  Selecting the keys through the data-dependent
+    `dimensions` property (2 whenever all z of ONE frame coincide) projects a 3-D source onto a plane as soon as the target is a
+    planar cut or a single point."""
+    prog = ctx.prog
+    ctx.rule("R-C19-5", floor=2, what="mapping addresses source and target with the same complete coordinate key list")
+    f = prog.func("pylife.mesh.meshmapping:Meshmapper.process")
+    gd = [c for c in calls_in(f.node) if (call_name(c) or "").endswith("griddata")]
+    if len(gd) != 1 or len(gd[0].args) < 3:
+        raise AnalysisError("Meshmapper.process: griddata call not found")
+    src, tgt = gd[0].args[0], gd[0].args[2]
+    if not (isinstance(src, ast.Subscript) and isinstance(tgt, ast.Subscript)):
+        raise AnalysisError("Meshmapper.process: source / target points are not column selections")
+    ks, kt = src.slice, tgt.slice
+
+    def resolve(e):
+        if isinstance(e, ast.Name):
+            d = [x.value for x in walk_function(f.node) if isinstance(x, ast.Assign) and isinstance(x.targets[0], ast.Name) and
+                 x.targets[0].id == e.id]
+            return d[0] if len(d) == 1 else e
+        return e
+    rs, rt = resolve(ks), resolve(kt)
+    if norm_text(rs) == norm_text(rt):
+        ctx.holds(f, gd[0], "source and target points use the same key list %s" % norm_text(rs))
+    else:
+        ctx.violated(f, gd[0], "source points use %s but target points %s" % (norm_text(rs), norm_text(rt)), text="key lists differ")
+    dep = [n.attr for n in ast.walk(rs) if isinstance(n, ast.Attribute) and n.attr in ("dimensions", "dimension", "ndim", "shape")]
+    if is_self_attr(rs) and not dep:
+        ctx.holds(f, gd[0], "coordinate keys = self.%s, the complete list of the mesh" % rs.attr)
+    else:
+        ctx.violated(f, gd[0], "the coordinate keys used for the mapping are %s%s: a coordinate is dropped depending on the data of "
+                     "one frame, so a 3-D source is interpolated after projection onto a plane" %
+                     (norm_text(rs), " (depends on %s)" % "/".join(dep) if dep else ""), text="coordinate keys " + norm_text(rs))
 
 
 def _r4_shape_state(ctx):
@@ -639,6 +677,16 @@ HS = "src/pylife/mesh/hotspot.py"
 
 def variants():
     out = []
+
+    def keys_by_dimension(tree):
+        f = find_func(tree, "Meshmapper.process")
+        for st in f.body:
+            if isinstance(st, ast.Assign) and is_self_attr(st.value, "_coord_keys"):
+                st.value = parse_expr("self._coord_keys[:self.dimensions]")
+                return True
+        return False
+    out.append(witness("mapping drops coordinates according to the target's apparent dimension",
+                       "src/pylife/mesh/meshmapping.py", keys_by_dimension, "R-C19-5"))
 
     def init_once(tree):
         f = find_func(tree, "Gradient3D._compute_gradient_simplex")
